@@ -466,6 +466,27 @@ def opUpdate (req : Json) : Except String Json := do
   let u ← getUReq req
   pure (jUpdateResult (Cli.updateCommand u.w u.post u.top u.path u.create u.prof u.xdev u.o u.setTs u.so u.doSave u.sign))
 
+/-- update_path: an update request plus {new_type, entry_hashes|null}: open the loader,
+    `update_entry_for_path(path, new_type, hashes)`, then `save_manifests` -/
+def opUpdatePath (req : Json) : Except String Json := do
+  let u ← getUReq req
+  let nt ← (← req.getObjVal? "new_type").getStr?
+  let t : FTag ← (match nt with
+    | "DATA" => pure .DATA | "MISC" => pure .MISC | "EBUILD" => pure .EBUILD | "AUX" => pure .AUX
+    | "MANIFEST" => pure .MANIFEST | "DIST" => pure .DIST | _ => .error "new_type")
+  let hs ← (match req.getObjVal? "entry_hashes" with
+    | .ok Json.null => pure none
+    | .ok j => (getStrs j).map some
+    | .error _ => pure none)
+  let r : Except L1.Err (U.St × List U.Write) :=
+    match U.openForUpdate u.w u.top u.create u.prof u.xdev with
+    | .error e => .error e
+    | .ok s0 =>
+      match U.updateEntryForPath u.w s0 u.path t hs with
+      | .error e => .error e
+      | .ok s1 => if u.doSave then U.saveAll u.w u.post s1 u.so else .ok (s1, [])
+  pure (jUpdateResult r)
+
 /-- session: {rounds: [update request ...]}: ONE loader object through several rounds of
     `update_entries_for_directory(path)` + `save_manifests(...)`; every round brings the world as it is on disk
     when the round starts (the edits made meanwhile included). The first round opens the loader. -/
@@ -597,6 +618,7 @@ def dispatch (req : Json) : Except String Json := do
   | "profile_fn" => opProfileFn req
   | "update" => opUpdate req
   | "session" => opSession req
+  | "update_path" => opUpdatePath req
   | "verify_calls" => opVerifyCalls req
   | "fastgen" => opFastgen req
   | "fg_order" => opFgOrder req
